@@ -1,5 +1,7 @@
 pub mod c01;
 pub mod c11;
+pub mod c12;
+pub mod front;
 pub mod c15;
 
 use crate::gast;
@@ -42,6 +44,7 @@ pub fn run(id: &str, tier: Tier, seed: u64) -> Option<Report> {
     Some(match id {
         "C01" => c01::run(tier, seed),
         "C11" => c11::run(tier, seed),
+        "C12" => c12::run(tier, seed),
         "C15" => c15::run(tier, seed),
         _ => return None,
     })
@@ -51,6 +54,7 @@ pub fn replay(id: &str, phase: &str, tape: &[u16], seed: u64) -> Option<Report> 
     Some(match id {
         "C01" => c01::replay(phase, tape, seed),
         "C11" => c11::replay(phase, tape, seed),
+        "C12" => c12::replay(phase, tape, seed),
         "C15" => c15::replay(phase, tape, seed),
         _ => return None,
     })
